@@ -71,6 +71,17 @@ def gen_harnesses(tier, seed):
         src = gen.one_position_module(methods, [0, 1, 2, 11, 12, -3, 7, True, False, "a", "ab", ""], checks,
                                       prelude="from numbers import Integral\nfrom collections.abc import Hashable")
         out.append((f"c10_ambstatic_{i}", src, dict(family="ambiguous static methods below a dependent one", methods=methods)))
+    # the same parametrised condition under two different bounds: two distinct types (each method only for instances of its own bound)
+    for i, nn in enumerate((1, 2, 3) if tier == "quick" else (0, 1, 2, 3, 4)):
+        methods = [dict(kind="ann", ann=f"Dependent[str, Shorter[{nn}]]", bound="str", pred=f"isinstance(x, str) and len(x) < {nn}", prio=0),
+                   dict(kind="ann", ann=f"Dependent[list, Shorter[{nn}]]", bound="list", pred=f"isinstance(x, list) and len(x) < {nn}", prio=0),
+                   dict(kind="static", bound="object", prio=-1)]
+        if i % 2:
+            methods.reverse()
+        checks = [("str", "str", "len(x) <= 3"), ("int", "int", None)]
+        src = gen.one_position_module(methods, ["", "a", "ab", "abc", [], [1], [1, 2], [1, 2, 3], 0, (1,), ()], checks,
+                                      prelude="from ovld import dependent_check\n\n@dependent_check\ndef Shorter(value: object, n):\n    return len(value) < n\n")
+        out.append((f"c10_samecond_{i}", src, dict(family="one parametrised condition under two bounds", methods=methods)))
     G = 8 if tier == "quick" else 40
     for i in range(G):
         a = rng.randint(-3, 10)
